@@ -130,6 +130,8 @@ def template_to_instance(ctx, cg, ef):
                         ok = True
                     if isinstance(gp, ast.Attribute) and gp.attr == '__copy__':
                         ok = True
+                if isinstance(par, ast.Compare) and any(c is n for c in par.comparators) and all(isinstance(o, (ast.In, ast.NotIn)) for o in par.ops):
+                    ok = True        # a membership test reads no template
                 res.check(ok, 'R-COPY.template', f.fq, f"`{short(pm.get(n) if pm.get(n) is not None else n, 60)}`: the template is only ever copied, never used or stored directly",
                           key=f"R-COPY.template|read|{f.qualname}", line=n.lineno)
     res.floor('R-COPY.template reads', n_reads, 1)
